@@ -260,6 +260,25 @@ def extPc : RtPc → Bool
   | .xarm | .xsubmit | .xreset | .xwait | .xclear => true
   | _ => false
 
+/-- the tick-loop context of a program point inside a poll (or inside a same-thread wake issued by it) -/
+def backOf : RtPc → Option Back
+  | .poll b | .lwake b | .lcas b | .lwrite b => some b
+  | .drainCheck (.loc _ b) | .draining (.loc _ b) _ => some b
+  | _ => none
+
+/-- the id prefetched by the `iter_hot()` iterator, if the runtime thread is inside the tick loop -/
+def nxtOf : RtPc → Option Nat
+  | .run nxt _ => nxt
+  | pc => match backOf pc with
+    | some (.task _ nxt _) => nxt
+    | _ => none
+
+/-- the task being polled -/
+def curOf (pc : RtPc) : Option Nat :=
+  match backOf pc with
+  | some (.task c _ _) => some c
+  | _ => none
+
 def isLcas : RtPc → Bool
   | .lcas _ => true
   | _ => false
@@ -301,5 +320,7 @@ structure Inv (s : State) : Prop where
   pnotPoll : s.pnot = true → s.cfg.drv = .poll
   casPoll : ∀ w, (s.wk w).pc = .cas → s.cfg.drv = .poll
   lcasPoll : isLcas s.rt = true → s.cfg.drv = .poll
+  nxtHead : ∀ n, nxtOf s.rt = some n → s.hot.head? = some n
+  nxtNe : ∀ c, curOf s.rt = some c → nxtOf s.rt ≠ some c
 
 end Compio.Wake
